@@ -40,6 +40,41 @@ struct Poly1 : TPBase
   double dist_min(const Args &) const { return NAN; }
 };
 
+// ------------------------------------------------------------------ s * atan(k x): Gauss-Newton steps overshoot for |k x| > 1.39
+// (a trial step that must be rejected), at unit scale and with a tiny residual on a steep graph (|f| < 2.2e-16, |J| > 1e-6)
+struct AtanF
+{
+  double s, k;
+  Eigen::Matrix<double, 1, 1> operator()(const double & x) const { return Eigen::Matrix<double, 1, 1>{s * std::atan(k * x)}; }
+  Eigen::Matrix<double, 1, 1> jacobian(const double & x) const { return Eigen::Matrix<double, 1, 1>{s * k / (1 + (k * x) * (k * x))}; }
+};
+struct Atan1 : TPBase
+{
+  using Args = std::tuple<double>;
+  AtanF f;
+  std::vector<double> starts;
+  Atan1(const std::string & tag, double s, double k)
+  {
+    name = "poly/scalar/atan/" + tag;
+    f.s  = s;
+    f.k  = k;
+    log2_res_scale = std::log2(s);
+    conv_max_tol   = 1e-6;
+    for (double c : {3.0, 0.5, -10.0, 1.5, 1e-3, 0.0, -1.3917452002707}) starts.push_back(c / k);
+  }
+  // unit and 2^-7 scale: a unique minimiser x = 0 with J(0) = s, and the damped iteration converges from every start (the residual is
+  // monotone): the convergence clause applies. The scaled-down variants are judged on the safety clauses only.
+  bool wellcond() const { return f.s >= 0.0078125; }
+  int nres() const { return 1; }
+  int nstarts() const { return int(starts.size()); }
+  bool basin(int) const { return f.s >= 0.0078125; }
+  bool hist(int s) const { return s < 3; }
+  Args start(int s) const { return Args{starts[size_t(s)]}; }
+  AtanF functor() const { return f; }
+  double fscale(const Args &) const { return f.s * 1.5707963267948966; }
+  double dist_min(const Args & a) const { return f.s >= 0.0078125 ? std::fabs(std::get<0>(a)) : NAN; }
+};
+
 // ------------------------------------------------------------------ 2-vector argument
 struct Poly2F
 {
@@ -116,6 +151,10 @@ struct Reg
       for (auto & p : p1) {
         mc::selfcheck("poly: analytic jacobian = central differences", jacobian_selfcheck(*p, 1));
         add_problem<Poly1>(p);
+      }
+      for (auto & p : {std::make_shared<const Atan1>("unit", 1.0, 1.0), std::make_shared<const Atan1>("s=2^-7", 0.0078125, 1.0), std::make_shared<const Atan1>("s=2^-30", std::ldexp(1.0, -30), 1.0),
+             std::make_shared<const Atan1>("s=2^-54,k=2^40", std::ldexp(1.0, -54), std::ldexp(1.0, 40))}) {
+        add_problem<Atan1>(p);
       }
       std::vector<std::shared_ptr<const Poly2>> p2 = {
         std::make_shared<const Poly2>("rosenbrock", 0, std::vector<std::array<double, 2>>{{-1.2, 1}, {1, 1}, {0, 0}, {1.2, 1.2}, {-3, 5}, {1 + 1e-6, 1 - 1e-6}, {0, 10}}),
